@@ -482,7 +482,7 @@ func c13Chain(c *core.Case, signer *ids.Identity, n int, ctx []byte, garbage boo
 
 func (w *c13World) build(c *core.Case) (data []byte, desc string) {
 	s := w.srcs[c.Pick("src", len(w.srcs))]
-	cat := c.Weighted("cat", 6, 6, 4, 4, 3, 3, 3)
+	cat := c.Weighted("cat", 6, 6, 4, 4, 3, 3, 3, 3, 3)
 	dst := w.V.IP()
 	var mt frame.MessageType
 	var sw, msg, apx []byte
@@ -572,6 +572,24 @@ func (w *c13World) build(c *core.Case) (data []byte, desc string) {
 		mt = frame.MessageType(c.Uniform("unk.mt", 0, 255))
 		msg = c.Bytes("unk.payload", c.Int("unk.plen", 1, 300))
 		desc = "any-type"
+	case 7: // a well-formed packet (leaves a connection entry at V, admitted or not)
+		mt = frame.NetworkTraffic
+		pkt := c07TunPacket(s.id.Addr.IP, w.V.IP(), uint8(core.OneOf(c, "conn.proto", 6, 17, 58)), 1234, uint16(core.OneOf(c, "conn.port", 53, 80, 9999)))
+		msg = pkt[:60]
+		desc = "traffic-wellformed"
+	case 8: // a well-formed error ping about a router or connection V may have an entry for
+		about := w.srcs[c.Pick("errping.about", len(w.srcs))].id.Addr.IP
+		code := uint8(core.OneOf(c, "errping.code", 1, 1, 3, 4, 2, 5))
+		hdr := pingHeaderFor(s.id, c.Uint64("errping.id"), "error", code, false)
+		var body []byte
+		if code == 1 {
+			body, _ = cbor.Marshal(map[string]any{"u": about.AsSlice()})
+		} else {
+			body, _ = cbor.Marshal(map[string]any{"d": about.AsSlice(), "t": core.OneOf(c, "errping.proto", 6, 17, 58), "p": core.OneOf(c, "errping.port", 1234, 53, 80, 9999)})
+		}
+		msg = append(append([]byte{1, byte(len(hdr))}, hdr...), body...)
+		mt = core.OneOf(c, "errping.mt", frame.RouterPing, frame.RouterCtrl)
+		desc = fmt.Sprintf("error-ping(code %d about %s)", code, about)
 	default: // big disconnect / big announce info crossing tiers
 		pt := core.OneOf(c, "big.type", "disconnect", "announce")
 		hdr := pingHeaderFor(s.id, 99, pt, 0, false)
